@@ -33,6 +33,7 @@ class Contract:
         self.inline_calls = set()    # callee qualnames to inline rather than use by contract
         self.ghost_l = []
         self.prop = None
+        self.props = set()
         self.notes = []
         self.assumes_l = []          # [(name, expr)] explicit, listed assumptions
         self.unroll = {}
@@ -87,7 +88,9 @@ class Registry:
         c = self.contracts.get(q)
         if c is None:
             c = self.contracts[q] = Contract(q)
-        if prop: c.prop = prop
+        if prop:
+            c.prop = c.prop or prop
+            c.props.add(prop)
         return c
 
     def field(self, cls, name, hint):
